@@ -260,6 +260,9 @@ func genC31(g *gen) {
 		})
 	}
 
+	// agent plumbing: which setting each parameter of the peer manager is read from in initComponents
+	plumb := peerAgentPlumbing()
+
 	if sched == nil || att == nil {
 		g.note("Reconnector.Schedule / attemptReconnect not found; facts set to false")
 	}
@@ -281,6 +284,78 @@ func genC31(g *gen) {
 	g.line("Definition gen_manager_schedules_on_disconnect : bool := %s.", coqBool(mgrSchedOnDisc))
 	g.line("Definition gen_manager_disconnectall_pauses : bool := %s.", coqBool(mgrPause))
 	g.line("Definition gen_manager_callback_is_handle_reconnect : bool := %s.", coqBool(mgrCallback))
+	for _, k := range []string{"InitialDelay", "MaxDelay", "Multiplier", "Jitter", "MaxAttempts", "KeepaliveInterval", "KeepaliveTimeout", "KeepaliveJitter"} {
+		g.line("Definition gen_agent_%s_from : string := %s%%string.", k, coqString(plumb[k]))
+	}
+}
+
+// peerAgentPlumbing resolves, in Agent.initComponents, the source expression of
+// every field of peerCfg.ReconnectConfig and of the keepalive parameters to a
+// path below a.cfg (local aliases such as `conns := a.cfg.Connections` are
+// substituted). Unknown / unrecognised -> "?".
+func peerAgentPlumbing() map[string]string {
+	out := map[string]string{}
+	for _, k := range []string{"InitialDelay", "MaxDelay", "Multiplier", "Jitter", "MaxAttempts", "KeepaliveInterval", "KeepaliveTimeout", "KeepaliveJitter"} {
+		out[k] = "?"
+	}
+	af := parseFile("internal/agent/agent.go")
+	fd := findFunc(af, "Agent", "initComponents")
+	if fd == nil {
+		return out
+	}
+	// single-assignment local aliases
+	alias := map[string]string{}
+	count := map[string]int{}
+	ast.Inspect(fd.Body, func(n ast.Node) bool {
+		if a, ok := n.(*ast.AssignStmt); ok && len(a.Lhs) == 1 && len(a.Rhs) == 1 {
+			if id, ok := a.Lhs[0].(*ast.Ident); ok {
+				count[id.Name]++
+				if a.Tok == token.DEFINE {
+					alias[id.Name] = peerNorm(src(a.Rhs[0]))
+				}
+			}
+		}
+		return true
+	})
+	var resolve func(e string, depth int) string
+	resolve = func(e string, depth int) string {
+		if depth > 5 {
+			return e
+		}
+		root := e
+		rest := ""
+		if i := strings.Index(e, "."); i >= 0 {
+			root, rest = e[:i], e[i:]
+		}
+		if v, ok := alias[root]; ok && count[root] == 1 && root != "a" {
+			return resolve(v+rest, depth+1)
+		}
+		return e
+	}
+	ast.Inspect(fd.Body, func(n ast.Node) bool {
+		a, ok := n.(*ast.AssignStmt)
+		if !ok || len(a.Lhs) != 1 || len(a.Rhs) != 1 {
+			return true
+		}
+		lhs := peerNorm(src(a.Lhs[0]))
+		switch lhs {
+		case "peerCfg.KeepaliveInterval", "peerCfg.KeepaliveTimeout", "peerCfg.KeepaliveJitter":
+			out[strings.TrimPrefix(lhs, "peerCfg.")] = resolve(peerNorm(src(a.Rhs[0])), 0)
+		case "peerCfg.ReconnectConfig":
+			if cl, ok := a.Rhs[0].(*ast.CompositeLit); ok {
+				for _, el := range cl.Elts {
+					if kv, ok := el.(*ast.KeyValueExpr); ok {
+						out[peerNorm(src(kv.Key))] = resolve(peerNorm(src(kv.Value)), 0)
+					}
+				}
+			}
+		}
+		if strings.HasPrefix(lhs, "peerCfg.ReconnectConfig.") {
+			out[strings.TrimPrefix(lhs, "peerCfg.ReconnectConfig.")] = resolve(peerNorm(src(a.Rhs[0])), 0)
+		}
+		return true
+	})
+	return out
 }
 
 // ---------------------------------------------------------------------------
